@@ -40,7 +40,7 @@ ANCHORS = [
 REQUIRED = ["greedy_allocations_judged", "rr_allocations_judged", "uncontrolled_judged", "continuous_grants_judged", "discrete_grants_judged",
             "grant_strictly_between_bounds", "grant_limited_by_constraint_continuous", "grant_limited_by_constraint_discrete",
             "rr_blocked_by_constraint", "preprocessing_observed", "sort:fcfs", "sort:lcfs", "sort:edf", "sort:llf", "sort:lrpt",
-            "positive_lower_bounds", "order_differs_from_arrival_order", "several_constraints_tight"]
+            "positive_lower_bounds", "order_differs_from_arrival_order", "several_constraints_tight", "allocations_after_an_edit"]
 BUDGET_S = {"quick": 270, "thorough": 3300}
 EPS = 0.01
 
@@ -61,6 +61,8 @@ def cases(seed, tier):
                          unint=rng.random() < 0.35)
         d["sessions"] = gen.dense_sessions(rng, d["network"])
         d["recompute"] = []
+        if rng.random() < 0.25:
+            d["edits"] = gen.rand_edits(rng, d["network"], max(s_["departure"] for s_ in d["sessions"]))
         out.append({"desc": d, "T0": rng.choice([0, 0, 3, 6]), "pre_seed": rng.randrange(1 << 30)})
     return out
 
@@ -166,6 +168,7 @@ def run_case(case, obs):
         wraps.append(Wrap(inner, "run_preprocessing", after=after_prep))
     for w in wraps:
         w.install()
+    ed = simrun.install_edits(sim, d.get("edits"))
     probe = SimProbe(sim, snapshots=False)
     probe.step_limit = simrun.last_event_ts(d) + 4
     probe.attach()
@@ -173,6 +176,8 @@ def run_case(case, obs):
     probe.detach()
     for w in reversed(wraps):
         w.remove()
+    if ed is not None:
+        ed.remove()
     obs.evals = 0
     if probe.exception is not None:
         obs.ev("run_raised_not_judged_here")  # C07's business (safety); allocations before the exception are still judged
@@ -183,6 +188,10 @@ def run_case(case, obs):
         if sd["kind"] == "uncontrolled":
             judge_uncontrolled(obs, d, ids, st, t, pre, out, wit)
         else:
+            if d.get("edits"):
+                ids, A, L, ang, names = oracles.dense_rows(gen.network_at(d["network"], d["edits"], t))
+                if any(e["after"] < t for e in d["edits"]):
+                    obs.ev("allocations_after_an_edit")
             judge_sorted(obs, d, sd, ids, A, L, ang, names, st, sess, period, t, pre, out, pp, wit)
     obs.sample = {"stations": len(ids), "constraints": names, "sessions": len(sess), "scheduler": sd, "invocations": len(records),
                   "T0": T0, "example": [(r[0], r[2]) for r in records[T0:T0 + 2]]}
